@@ -52,6 +52,12 @@ def menu(entry):
     for p in entry.family.paths[:2]:
         m.append({'api': 'iter_errors', 'path': p, 'ns': True})
         m.append({'api': 'decode_lax', 'path': p, 'ns': True})
+    if hasattr(entry.family, 'peer_pages'):
+        # location hints below the root are followed (the family's hints name schemas that cannot be built, or the
+        # namespaces that would be loaded on demand anyway: nothing the schema would not load by itself)
+        m.append({'api': 'iter_errors', 'lazy': 0, 'hints': True})
+        m.append({'api': 'decode_lax', 'lazy': 0, 'hints': True})
+        m.append({'api': 'is_valid', 'lazy': 1, 'hints': True})
     m.append({'api': 'component'})
     m.append({'api': 'find'})
     return m
@@ -235,10 +241,12 @@ def exec_op(schema, entry, env, op, counters=None):
         out['res'] = find_probe(schema, entry)
         return out
 
-    call = {k: v for k, v in op.items() if k not in ('doc', 'abort', 'ns')}   # incl. 'defuse'
+    call = {k: v for k, v in op.items() if k not in ('doc', 'abort', 'ns', 'hints')}   # incl. 'defuse'
     hooks = {}
     if op.get('ns'):
         hooks['namespaces'] = family_ns(entry)
+    if op.get('hints'):
+        hooks['use_location_hints'] = True
     data = doc.data
     src = dict(op.get('src') or {})
     if abort and abort['kind'] == 'eio':
